@@ -66,6 +66,7 @@ func rawClients(cred string) []clientSpec {
 var httpMalformed = []string{
 	"proto:bad-length", "proto:truncated", "proto:bad-wiretype", "proto:open-varint",
 	"json:truncated", "json:not-json", "json:wrong-type", "json:unbalanced", "json:proto-bytes",
+	"json:empty-body", "json:whitespace-only", "json:trailing-garbage", "json:two-documents", "json:array",
 	"encoding:bad-gzip", "encoding:bad-zstd", "encoding:unknown", "both:bad-gzip+text/plain",
 	"media:text/plain", "media:application/xml", "media:none", "media:garbage", "media:application/grpc",
 	"method:GET", "method:PUT", "method:DELETE", "method:PATCH", "method:HEAD",
